@@ -19,7 +19,7 @@ from ..facts import AnalysisError
 from ..raises import Escapes, EscapePolicy
 from ..sym import Engine, enum_members
 from ..terms import const, contains, is_const, show, strip_sites, subterms
-from ..util import InlineOnly, NoInline, P, Scan, calls_to, engine, loc, param_at, sched_targets
+from ..util import InlineOnly, NoInline, P, Scan, calls_to, engine, field_of, loc, param_at, sched_targets
 
 PROTO = "sd.ServiceDiscoveryProtocol"
 BASE = "sd.SOMEIPDatagramProtocol"
@@ -368,6 +368,22 @@ def _guards(run, prog, et):
             eff = [e for e in p.events if e.kind == "call" and (e.sched or (e.targets and e.targets[0].qual != "sd.format_address"))]
             run.ob("G1", f"{smr.qual}:no-unicast-flag-ignored", not eff and p.returns(), loc(smr),
                    "entries of a message without the unicast flag are ignored" if not eff else f"message without unicast flag still reaches {eff[0]!r}")
+    # the header handed to sd_message_received went through resolve_options(): that step must keep the decoded
+    # flags (a freshly constructed header silently gets flag_unicast=True)
+    hro = prog.lookup_method("header.SOMEIPSDHeader", "resolve_options")
+    hme = ("self", "header.SOMEIPSDHeader")
+    kept = True
+    why = ""
+    for p in engine(prog, NoInline()).paths(hro, recv="header.SOMEIPSDHeader"):
+        if p.returns():
+            for fld in ("flag_unicast", "flag_reboot", "flags_unknown"):
+                v = field_of(prog, p.retval(), fld)
+                if v != ("attr", hme, fld):
+                    kept = False
+                    why = f"resolve_options() returns a header whose {fld} is {show(v) if v != ('default',) else 'the constructor default'}, not the decoded one"
+    run.ob("G1", f"{hro.qual}:keeps-decoded-flags", kept, loc(hro),
+           "option resolution keeps the decoded unicast / reboot / unknown flags (the unicast gate tests what was on the wire)" if kept else
+           why + ": a message without the unicast flag passes the gate in sd_message_received")
     dispatched_without_flag_test = [p for p in sp if not any(contains(c, lambda s: s == ("attr", sdh, "flag_unicast")) for c, _, _, _ in p.conds)
                                     and any(e.kind == "call" and (e.sched or (e.targets and e.targets[0].qual != "sd.format_address")) for e in p.events)]
     run.ob("G1", f"{smr.qual}:unicast-flag-tested-before-dispatch", not dispatched_without_flag_test, loc(smr), "no entry is dispatched before the unicast flag was tested")
@@ -385,15 +401,3 @@ def _guards(run, prog, et):
                 leaks += 1
     run.ob("G1", f"{smr.qual}:multicast-subscribe-dropped", leaks == 0 and any(calls_to(p, hsub.qual) for p in sp), loc(smr),
            "Subscribe entries are handed to the announcer only when received by unicast")
-    # service endpoint
-    sm = prog.lookup_method(SVC, "message_received")
-    smc = P(sm, param_at(sm, 2, "multicast"))
-    eng = engine(prog, InlineOnly(names=(f"{SVC}.send_error_response", f"{SVC}.send_positive_response"), props=False, max_depth=1))
-    sent_on_mc = 0
-    seen_mc = False
-    for p in eng.paths(sm, recv=SVC):
-        run.paths += 1
-        if any(c == smc and v for c, v, _, _ in p.conds):
-            seen_mc = True
-            sent_on_mc += len([e for e in p.events if e.kind == "call" and (e.attrname == "send" or e.sched or (e.fterm is not None and e.fterm[0] == "call"))])
-    run.ob("G1", f"{sm.qual}:multicast-request-ignored", seen_mc and sent_on_mc == 0, loc(sm), "a request received over multicast causes no handler call and no transmission")
